@@ -32,7 +32,16 @@ RULE = ("person level: every token sequence of length <= 4 (quick; <= 5 sampled 
         "that raise (field values that are no names, SplitNameParts on unseparated names, unknown style) also as the first use; "
         "each use must do what new objects constructed with the configuration the public attributes show at that moment do, the "
         "written text must hold the merge (in the style shown) of the structured names, and a last-name-first write must re-parse "
-        "to the same names. distinct = distinct input text per level; non-trivial = the premises of the "
+        "to the same names; streams magic-* (c14_magic.py): MAGIC WORDS AS NAMES - `others`, `Others`, `et al.`, `et al`, `Et Al.`, "
+        "`et. al.`, `et alii`, `and others`, `Jr`, `von`, `Anonymous`, months, numbers, the words of selfref.MAGIC_WORDS - alone, in "
+        "other letter cases, with / without a final dot, braced, tied, last-name-first, reversed, and as the first / von / last / jr "
+        "part of an ordinary name (all valid names with a non-empty last name by the independent name oracle), as the only / last / "
+        "first / middle person of lists of 1-4 persons, several of them, the same one twice: every core person in every position, the "
+        "rest sampled; person, list and stack level as above (model compared) and level mwpair (oracle only): the middleware pair "
+        "through Middleware.transform with MergeNameParts(style='last') and (style='first'), and parse_string / write_string with "
+        "style='first'; last-name-first must re-split into exactly the same persons and parts; first-name-first must do so where "
+        "the independent references read the first-name-first texts joined by ` and ` as these very persons. "
+        "distinct = distinct input text per level; non-trivial = the premises of the "
         "inverse law hold (valid names, non-empty last, no word ending in an odd number of backslashes) and some name has >= 2 words")
 TRUSTED = ["the inverse laws are checked directly on the implementation's outputs (harness/props/c14.py), the known class K3 by "
            "names_common.in_k3"]
@@ -162,6 +171,12 @@ def generate(rng, tier):
             cases.append({"stream": "k3-boundary", "input": {"level": "list", "s": v}})
             cases.append({"stream": "k3-boundary", "input": {"level": "stack", "fields": [[rng.choice(["author", "editor", "translator"]), v]]}})
         cases.append({"stream": "k3-boundary", "input": {"level": "person", "s": e}})
+    # MAGIC WORDS AS NAMES (c14_magic.py): `others`, `Others`, `et al.`, `Et Al.`, `et alii`, `and others`, `Jr`, `von`, `Anonymous`,
+    # months, numbers, reserved keys ... as the only / last / first / middle person of 1..4: ordinary valid names for the name
+    # middlewares, which no token alphabet produces.  Person, list and stack level (model compared) and level mwpair (the
+    # middleware pair through transform and the stack, BOTH merge styles; oracle only).  Appended last.
+    from props import c14_magic
+    cases += c14_magic.cases(rng, tier, good, adm_name)
     return cases
 
 
@@ -359,6 +374,10 @@ def gen_session(rng, good, ok):
 
 def shrink(case):
     inp = case["input"]
+    if inp["level"] == "mwpair":
+        from props import c14_magic
+        yield from c14_magic.shrink(case)
+        return
     if inp["level"] == "reconfig":
         from props import c14_reconf
         yield from c14_reconf.shrink(case)
@@ -393,6 +412,15 @@ def admissible(d):
 
 
 def impl(case):
+    rec = impl_level(case)
+    kind = case["input"].get("magic")
+    if kind and isinstance(rec.get("tags"), list):
+        # streams magic-*: where the magic person stands in the list (distribution of the evidence file)
+        rec["tags"].append("magic_person_is:%s" % kind)
+    return rec
+
+
+def impl_level(case):
     import enc
     import implutil
     from props.c13 import enc_parts_dict, REASONS
@@ -404,6 +432,9 @@ def impl(case):
     if inp["level"] == "reconfig":
         from props import c14_reconf
         return c14_reconf.impl(case)
+    if inp["level"] == "mwpair":
+        from props import c14_magic
+        return c14_magic.impl(case)
 
     def parse(s):
         """('ok', dict) | ('inv', code); other exceptions propagate"""
